@@ -301,7 +301,11 @@ func Run[C any](t *testing.T, s Sub[C]) {
 	sr.WallS += time.Since(start).Seconds()
 	sr.Passed = ok
 	if !ok {
-		if lastFail != nil {
+		if lastFail != nil && strings.HasPrefix(lastFailErr, "PRECONDITION") {
+			// the generated case violates a premise of the statement: a harness defect, never a finding
+			p := writeReplay(s.Prop, s.Name, *lastFail, lastFailErr)
+			fmt.Printf("VERIF-INFRA property=%s sub=%s harness generated a case outside the statement's domain (%s); case saved to %s\n", s.Prop, s.Name, firstLine(lastFailErr), p)
+		} else if lastFail != nil {
 			p := writeReplay(s.Prop, s.Name, *lastFail, lastFailErr)
 			rec.mu.Lock()
 			rec.viol = append(rec.viol, violation{s.Prop, s.Name, p, firstLine(lastFailErr)})
@@ -337,6 +341,13 @@ func RunEnum[C any](t *testing.T, e Enum[C]) {
 		}
 		info, err := safeCheck(e.Check, c)
 		rec.record(e.Name, sr, info, c)
+		if err != nil && strings.HasPrefix(err.Error(), "PRECONDITION") {
+			p := writeReplay(e.Prop, e.Name, c, err.Error())
+			fmt.Printf("VERIF-INFRA property=%s sub=%s harness enumerated a case outside the statement's domain (%s); case saved to %s\n", e.Prop, e.Name, firstLine(err.Error()), p)
+			t.Errorf("harness defect: %v", err)
+			failed = true
+			return false
+		}
 		if err != nil {
 			p := writeReplay(e.Prop, e.Name, c, err.Error())
 			rec.mu.Lock()
@@ -356,6 +367,12 @@ func RunEnum[C any](t *testing.T, e Enum[C]) {
 
 // Fail reports a violation found outside Run/RunEnum (e.g. by a custom loop).
 func Fail(t testing.TB, prop, sub string, c any, err error) {
+	if strings.HasPrefix(err.Error(), "PRECONDITION") {
+		p := writeReplay(prop, sub, c, err.Error())
+		fmt.Printf("VERIF-INFRA property=%s sub=%s case outside the statement's domain (%s); case saved to %s\n", prop, sub, firstLine(err.Error()), p)
+		t.Errorf("harness defect: %v", err)
+		return
+	}
 	p := writeReplay(prop, sub, c, err.Error())
 	rec.mu.Lock()
 	rec.viol = append(rec.viol, violation{prop, sub, p, firstLine(err.Error())})
@@ -404,7 +421,10 @@ func replayInto[C any](t *testing.T, prop, sub string, check func(C) (Info, erro
 	}
 	replayed = true
 	_, cerr := safeCheck(check, c)
-	if cerr != nil {
+	if cerr != nil && strings.HasPrefix(cerr.Error(), "PRECONDITION") {
+		fmt.Printf("VERIF-INFRA replay %s is outside the statement's domain: %s\n", *flagReplay, firstLine(cerr.Error()))
+		t.Errorf("replay outside the domain: %v", cerr)
+	} else if cerr != nil {
 		fmt.Printf("VERIF-REPLAY-FAIL property=%s sub=%s replay=%s error=%s\n", prop, sub, *flagReplay, firstLine(cerr.Error()))
 		t.Errorf("replay %s: %v", *flagReplay, cerr)
 	} else {
